@@ -75,9 +75,12 @@ class Check:
         return self.tier == "thorough"
 
     # ---- model checking
+    MC_ACTIONS = ("MCNewSolve", "MCInit", "MCTop", "MCDisp", "MCBegin", "MCInTrial", "MCPost", "MCFin")
+
     def mc(self, cfg, module="MCGradFlow.tla", timeout=3000, must_violate=None):
+        want_cov = module == "MCGradFlow.tla" and must_violate is None
         try:
-            r = tlc.model_check(module, cfg, timeout=timeout)
+            r = tlc.model_check(module, cfg, timeout=timeout, coverage=want_cov)
         except tlc.TLCFailure as e:
             self.machinery.append("TLC failure on %s: %s" % (cfg, str(e)[-1500:]))
             return None
@@ -86,6 +89,12 @@ class Check:
         self.mc_runs.append({"cfg": cfg, "module": module, "distinct": r["stats"]["distinct"],
                              "generated": r["stats"]["generated"], "wall_s": round(r["wall"], 1),
                              "violated": r["violated"]})
+        if want_cov and r["ok"]:
+            cov = r.get("coverage", {})
+            self.mc_runs[-1]["action_counts"] = {k: list(v) for k, v in cov.items() if k.startswith("MC") or k == "Init"}
+            dead = [a for a in self.MC_ACTIONS if cov.get(a, (0, 0))[1] == 0]
+            if dead:
+                self.machinery.append("vacuous model checking on %s: actions never taken: %s" % (cfg, ", ".join(dead)))
         if must_violate is not None:
             if r["violated"] != must_violate:
                 self.machinery.append("witness config %s should violate %s (vacuity guard) but got %s"
@@ -127,7 +136,68 @@ class Check:
         results = sweep.run_groups(gspecs)
         br = sweep.validate_groups(results)
         self._absorb(br, label)
+        if "selftest" not in self.cov and not self.violations:
+            try:
+                self.selftest(results)
+            except Exception as e:  # noqa
+                self.machinery.append("binding self-test crashed: %r" % (e,))
         return br
+
+    def selftest(self, results):
+        """Non-vacuity of the binding: corrupt one field / drop one event of an accepted trace; TLC must object."""
+        import copy
+
+        base = None
+        for r in results:
+            if "events" in r and sum(1 for e in r["events"] if e["ev"] == "TrialEnd" and e["kind"] == "accept") >= 2 \
+                    and any(e["ev"] == "Notify" for e in r["events"]) and r["events"][-1]["ev"] == "Return":
+                base = r
+                break
+        if base is None:
+            return
+        variants = []
+
+        def variant(name, fn):
+            evs = copy.deepcopy(base["events"])
+            fn(evs)
+            variants.append({"events": evs, "info": dict(base["info"], tag="selftest:" + name), "spec": {"runs": [], "selftest": name}})
+
+        def flip_accept(evs):
+            e = [x for x in evs if x["ev"] == "TrialEnd" and x["kind"] == "accept"][0]
+            e["kind"], e["accepted"] = "reject", False
+
+        def drop_notify(evs):
+            evs.remove([x for x in evs if x["ev"] == "Notify"][1])
+
+        def wrong_iterations(evs):
+            evs[-1]["iterations"] += 1
+
+        def wrong_from(evs):
+            e = [x for x in evs if x["ev"] == "TrialBegin"][-1]
+            e["from"] = e["from"] + 1000
+
+        def lamb_not_carried(evs):
+            e = [x for x in evs if x["ev"] == "TrialBegin"][1]
+            e["dt"] = e["dt"] + 1 if e["dt"] >= 0 else 0
+
+        variant("flip_accept", flip_accept)
+        variant("drop_notify", drop_notify)
+        variant("wrong_iterations", wrong_iterations)
+        variant("wrong_from", wrong_from)
+        variant("lamb_not_carried", lamb_not_carried)
+        ok_run = {"events": copy.deepcopy(base["events"]), "info": dict(base["info"], tag="selftest:unchanged"), "spec": {"runs": [], "selftest": "unchanged"}}
+        br = sweep.validate_groups([ok_run] + variants)
+        hit = {}
+        for n in br.notes:
+            t = (n["spec"] or {}).get("selftest")
+            if t and n["tag"] != "M":
+                hit[t] = hit.get(t, 0) + 1
+        self.cov["selftest"] = {v["spec"]["selftest"]: hit.get(v["spec"]["selftest"], 0) for v in variants}
+        for v in variants:
+            if hit.get(v["spec"]["selftest"], 0) == 0:
+                self.machinery.append("binding self-test: corruption '%s' of an accepted trace was NOT rejected" % v["spec"]["selftest"])
+        if hit.get("unchanged", 0) and not any(x["tag"].startswith("P:") for x in br.notes if (x["spec"] or {}).get("selftest") == "unchanged"):
+            pass
 
     def _absorb(self, br, label, count_drift=True):
         for e in br.errors:
